@@ -140,3 +140,14 @@ def c09(ctx):
                 "polynomials (reordered factors, distributivity, binomial identities, regrouping) must expand to "
                 "one and the same object")
     simple(ctx, "MC_C09", "Trace_Val", floor=0.5)
+
+
+@plan("C11")
+def c11(ctx):
+    ctx.rule = ("TLC enumerates 36 expressions (arithmetic, powers, functions, relationals, undefined functions) x 41 "
+                "substitution maps (numbers, symbols, expressions, two-key maps incl. swaps) for subs and seeded "
+                "subsets for xreplace/msubs/ssubs, each with and without the cache; the value of the result at six "
+                "assignments must equal the value of the expression under the substituted environment and both cache "
+                "settings must return the same object; substituting an absent symbol or the identity map must return "
+                "the input itself")
+    simple(ctx, "MC_C11", "Trace_Val", floor=0.3)
